@@ -138,7 +138,8 @@ EvSetup(e) ==
      /\ api' = [pd |-> e.pd, T |-> 0, road |-> SnapRoad(e.snap), road0 |-> 0, q |-> NoQ, st1 |-> api.st1, inited |-> TRUE,
                  gvalid |-> \A i \in 1 .. Len(e.roots) : e.roots[i].tr = 2 => e.roots[i].valid]
      /\ nviol' = nviol + Cardinality(v)
-     /\ UNCHANGED hdr
+     \* a problem may live on a different space: resolution and unit are those of the installed one
+     /\ hdr' = [hdr EXCEPT !.lvs = e.lvs, !.maxd = e.maxd, !.rad = e.rad]
 
 EvSetPd(e) ==
   /\ Report(L(e.kind = "panic", "C08/panic@" \o e.site))
